@@ -21,6 +21,9 @@ struct Syl {
     pre: Vec<K>,
     rest: Vec<K>,
     desc: String,
+    /// numbers k such that after the left-standing sign and the first k keys of `rest` the sign is waiting again (the k-th
+    /// key was the hasanta key inside the cluster: the sign is lifted over it and waits for the next consonant)
+    lifted_at: Vec<usize>,
 }
 
 fn spec_for(bits: u8, order: bool) -> CfgSpec {
@@ -97,21 +100,22 @@ fn syllables(o: &LayoutOracle, reph_on: bool) -> Vec<Syl> {
                     u.push(k("\u{0981}"));
                     rest.push(k("\u{0981}"));
                 }
-                out.push(Syl { uni: u, pre: pre.clone(), rest, desc: format!("{cd}+{kn}{}", if ch { "+chandra" } else { "" }) });
+                let lifted_at: Vec<usize> = if pre.is_empty() { vec![] } else { (1..cl.len()).filter(|&i| cl[i - 1] == h).collect() };
+                out.push(Syl { uni: u, pre: pre.clone(), rest, desc: format!("{cd}+{kn}{}", if ch { "+chandra" } else { "" }), lifted_at });
             }
         }
     }
     // an independent vowel typed as hasanta + sign (the rule no option switches off): same keys in both orders
     for (v, name) in [("ু", "hasanta+u=উ"), ("া", "hasanta+aa=আ"), ("ি", "hasanta+i=ই"), ("ে", "hasanta+e=এ")] {
-        out.push(Syl { uni: vec![h, k(v)], pre: vec![], rest: vec![h, k(v)], desc: name.to_string() });
+        out.push(Syl { uni: vec![h, k(v)], pre: vec![], rest: vec![h, k(v)], desc: name.to_string(), lifted_at: vec![] });
     }
     // an explicit hasanta that ends the previous syllable (doubled hasanta, or hasanta + the non-joiner key): same keys in
     // both orders; a left-standing sign typed after it waits for the next consonant like anywhere else
     // (always on a bare consonant: after a vowel sign a hasanta key means "the conjunct goes on" in typewriter order)
-    out.push(Syl { uni: vec![k("ক"), h, h], pre: vec![], rest: vec![k("ক"), h, h], desc: "ক+explicit-hasanta(doubled)".to_string() });
-    out.push(Syl { uni: vec![k("ক"), h, k("\u{200C}")], pre: vec![], rest: vec![k("ক"), h, k("\u{200C}")], desc: "ক+explicit-hasanta(+ZWNJ key)".to_string() });
+    out.push(Syl { uni: vec![k("ক"), h, h], pre: vec![], rest: vec![k("ক"), h, h], desc: "ক+explicit-hasanta(doubled)".to_string(), lifted_at: vec![] });
+    out.push(Syl { uni: vec![k("ক"), h, k("\u{200C}")], pre: vec![], rest: vec![k("ক"), h, k("\u{200C}")], desc: "ক+explicit-hasanta(+ZWNJ key)".to_string(), lifted_at: vec![] });
     for v in ["আ", "ই", "এ", "!", ",", "১"] {
-        out.push(Syl { uni: vec![k(v)], pre: vec![], rest: vec![k(v)], desc: v.to_string() });
+        out.push(Syl { uni: vec![k(v)], pre: vec![], rest: vec![k(v)], desc: v.to_string(), lifted_at: vec![] });
     }
     out
 }
@@ -127,6 +131,7 @@ struct Tally {
     pending_flag: u64,
     pending_backspace: u64,
     with_bystanders: u64,
+    lifted_backspace: u64,
 }
 
 fn case_json(bits: u8, word: &[&Syl], bs_at: Option<usize>) -> Value {
@@ -253,6 +258,59 @@ fn judge(off: &Sess, on: &Sess, bits: u8, word: &[&Syl], bs_at: Option<usize>, o
     }
 }
 
+/// A backspace while the sign waits *again*: it was placed on a consonant, lifted over the hasanta key that continues the
+/// conjunct, and waits for the next consonant. One backspace discards it; the text shown (which does not contain it) stays,
+/// and the word goes on without the sign: the same text as the same cluster keys typed without any sign in Unicode order.
+fn judge_lifted(off: &Sess, on: &Sess, bits: u8, word: &[&Syl], at: usize, k: usize, out: &mut Out, t: &mut Tally) {
+    let case = || {
+        let mut c = case_json(bits, word, None);
+        c["backspace_while_the_sign_waits_again"] = json!({"syllable": at, "after_cluster_keys": k, "syllable_desc": word[at].desc});
+        c
+    };
+    let r = (|| -> Result<(String, String, bool, String, String), Panic> {
+        let (mut a, mut b) = (String::new(), String::new());
+        for s in &word[..at] {
+            for &(kk, m) in &s.uni {
+                a = text_of(&off.key(kk, m, 0)?);
+            }
+            for &(kk, m) in s.pre.iter().chain(s.rest.iter()) {
+                b = text_of(&on.key(kk, m, 0)?);
+            }
+        }
+        let s = word[at];
+        for &(kk, m) in &s.rest[..k] {
+            a = text_of(&off.key(kk, m, 0)?);
+        }
+        for &(kk, m) in s.pre.iter().chain(s.rest[..k].iter()) {
+            b = text_of(&on.key(kk, m, 0)?);
+        }
+        let _ = b;
+        let after_bs = text_of(&on.bs(false)?);
+        let flag = on.ongoing()?;
+        // the word goes on: the next key of the cluster
+        let (kk, m) = s.rest[k];
+        let a2 = text_of(&off.key(kk, m, 0)?);
+        let b2 = text_of(&on.key(kk, m, 0)?);
+        off.finish()?;
+        on.finish()?;
+        Ok((a, after_bs, flag, a2, b2))
+    })();
+    t.lifted_backspace += 1;
+    match r {
+        Ok((a, after_bs, flag, a2, b2)) => {
+            if after_bs != a || !flag || a2 != b2 {
+                out.violation("pending-sign-discarded-by-backspace", format!("c14:lifted-sign-backspace:{}", word[at].desc.split('+').nth(1).unwrap_or("")), case(),
+                              format!("text {a:?} (the cluster so far, without the sign), ongoing=true, then {a2:?} after the next key"), format!("text {after_bs:?}, ongoing={flag}, then {b2:?}"));
+            }
+        }
+        Err(p) => {
+            let _ = off.finish();
+            let _ = on.finish();
+            out.violation("pending-sign-discarded-by-backspace", format!("c14:lifted-sign-backspace-panic@{}", p.loc), case(), "typing completes".into(), format!("panic at {}: {}", p.loc, p.msg));
+        }
+    }
+}
+
 fn flush(t: &Tally, out: &mut Out) {
     out.count("evaluations", t.events);
     out.count("words", t.words);
@@ -263,6 +321,7 @@ fn flush(t: &Tally, out: &mut Out) {
     out.count("pending_flag_checked", t.pending_flag);
     out.count("pending_backspace_checked", t.pending_backspace);
     out.count("words_with_bystander_options", t.with_bystanders);
+    out.count("backspace_while_a_lifted_sign_waits_checked", t.lifted_backspace);
 }
 
 impl Prop for C14 {
@@ -325,6 +384,14 @@ impl Prop for C14 {
                             if !word[at].pre.is_empty() {
                                 out.begin_case(|| case_json(bits, &word, Some(at)));
                                 judge(&off, &on, bits, &word, Some(at), out, &mut t);
+                            }
+                        }
+                    }
+                    if (i + j) % 2 == 0 {
+                        for at in 0..word.len() {
+                            for &k in &word[at].lifted_at {
+                                out.begin_case(|| case_json(bits, &word, None));
+                                judge_lifted(&off, &on, bits, &word, at, k, out, &mut t);
                             }
                         }
                     }
